@@ -1,0 +1,167 @@
+// Copyright 2020-2025 Buf Technologies, Inc.
+//
+// Licensed under the Apache License, Version 2.0 (the "License");
+// you may not use this file except in compliance with the License.
+// You may obtain a copy of the License at
+//
+//      http://www.apache.org/licenses/LICENSE-2.0
+//
+// Unless required by applicable law or agreed to in writing, software
+// distributed under the License is distributed on an "AS IS" BASIS,
+// WITHOUT WARRANTIES OR CONDITIONS OF ANY KIND, either express or implied.
+// See the License for the specific language governing permissions and
+// limitations under the License.
+
+//go:build verif
+
+package buffetch
+
+// Contracts for the gocv verifier (contract author ca-B2). Comment-only.
+// Spec functions (b2_*): /verif/specs/C11_formats.spec.
+//
+// C11: the PATH half of the decision table "path -> (format, compression)". The documented table (buf Inputs
+// reference, "automatically derived formats"): .binpb/.bin -> binpb, .json -> json, .txtpb -> txtpb, .yaml -> yaml,
+// .tar -> tar, .zip -> zip, .git -> git, .tgz -> tar+gzip, a trailing .gz / .zst -> gzip / zstd over the INNER
+// extension (an unknown inner extension is an error), "-" and the device files -> the default format (binpb, or the
+// caller's default encoding for `buf convert`), uncompressed. The explicit-option half (override, unknown values) is
+// buffetch/internal (refParser.getRawRef / parseRawRef); reader and writer share the parsed ref.
+// (`.yml` is neither documented nor recognised: a path x.yml is a directory / module for processRawRef and the
+// default encoding for the message parser. Not demanded here.)
+//
+// the refs and encodings are immutable values seen through their accessors (trusted)
+//@ trusted pure interface internal.ParsedSingleRef
+//@ trusted pure interface internal.ParsedRef
+//@ trusted pure interface MessageRef
+//
+// ---- format name -> encoding ----
+//@ func parseMessageEncoding(format) (r, err)
+//@   property C11
+//@   ensures binpb: format == "binpb" || format == "bin" || format == "bingz" ==> r == MessageEncodingBinpb && err == nil
+//@   ensures json: format == "json" || format == "jsongz" ==> r == MessageEncodingJSON && err == nil
+//@   ensures txtpb: format == "txtpb" ==> r == MessageEncodingTxtpb && err == nil
+//@   ensures yaml: format == "yaml" ==> r == MessageEncodingYAML && err == nil
+//@   ensures other-format-is-an-error: format != "binpb" && format != "bin" && format != "bingz" && format != "json" && format != "jsongz" && format != "txtpb" && format != "yaml" ==> err != nil && r == 0
+//@   canary ensures err == nil
+//@   canary ensures err != nil
+//
+// The four encodings are distinct and 0 is none of them (0 = "no encoding" in error returns).
+//@ table b2_encodingNames {C11} of messageEncodingToFormat
+//@   ensures every-encoding-has-its-format: messageEncodingToFormat[MessageEncodingBinpb] == "binpb" && messageEncodingToFormat[MessageEncodingJSON] == "json" && messageEncodingToFormat[MessageEncodingTxtpb] == "txtpb" && messageEncodingToFormat[MessageEncodingYAML] == "yaml"
+//@   ensures exactly-the-four: forall e MessageEncoding :: e in messageEncodingToFormat <==> (e == MessageEncodingBinpb || e == MessageEncodingJSON || e == MessageEncodingTxtpb || e == MessageEncodingYAML)
+//@   ensures distinct: MessageEncodingBinpb != MessageEncodingJSON && MessageEncodingBinpb != MessageEncodingTxtpb && MessageEncodingBinpb != MessageEncodingYAML && MessageEncodingJSON != MessageEncodingTxtpb && MessageEncodingJSON != MessageEncodingYAML && MessageEncodingTxtpb != MessageEncodingYAML && MessageEncodingBinpb != 0 && MessageEncodingJSON != 0 && MessageEncodingTxtpb != 0 && MessageEncodingYAML != 0
+//
+// The format lists handed to the parsers as "allowed formats".
+//@ table b2_messageFormats {C11} of messageFormats
+//@   ensures exactly-the-message-formats: forall f string :: (exists i int :: 0 <= i && i < len(messageFormats) && messageFormats[i] == f) <==> (f == "bin" || f == "binpb" || f == "bingz" || f == "json" || f == "jsongz" || f == "txtpb" || f == "yaml")
+//@ table b2_messageFormatsNotDeprecated {C11} of messageFormatsNotDeprecated
+//@   ensures the-four-encodings: forall f string :: (exists i int :: 0 <= i && i < len(messageFormatsNotDeprecated) && messageFormatsNotDeprecated[i] == f) <==> (f == "binpb" || f == "json" || f == "txtpb" || f == "yaml")
+//@ table b2_sourceFormats {C11} of sourceFormats
+//@   ensures exactly-the-source-formats: forall f string :: (exists i int :: 0 <= i && i < len(sourceFormats) && sourceFormats[i] == f) <==> (f == "dir" || f == "git" || f == "protofile" || f == "tar" || f == "targz" || f == "zip")
+//@ table b2_allFormats {C11} of allFormats
+//@   ensures message-and-source-and-module: forall f string :: (exists i int :: 0 <= i && i < len(allFormats) && allFormats[i] == f) <==> (f == "bin" || f == "binpb" || f == "bingz" || f == "json" || f == "jsongz" || f == "txtpb" || f == "yaml" || f == "dir" || f == "git" || f == "protofile" || f == "tar" || f == "targz" || f == "zip" || f == "mod")
+//@ table b2_deprecatedFormats {C11} of deprecatedCompressionFormatToReplacementFormat
+//@   ensures replacement-is-the-uncompressed-format: deprecatedCompressionFormatToReplacementFormat["bingz"] == "binpb" && deprecatedCompressionFormatToReplacementFormat["jsongz"] == "json" && deprecatedCompressionFormatToReplacementFormat["targz"] == "tar"
+//@   ensures exactly-the-gz-formats: forall f string :: f in deprecatedCompressionFormatToReplacementFormat <==> (f == "bingz" || f == "jsongz" || f == "targz")
+//
+// ---- path -> (format, compression): the any-input parser (buf build / lint / breaking / ls-files INPUT) ----
+// (path that parses as a module reference and is no directory: module; anything else: directory)
+//@ func assumeModuleOrDir(path) (r, err)
+//@   property C11
+//@   modifies heap, ghost.j_osStat
+//@   ensures dir-or-module: err == nil ==> r == "dir" || r == "mod"
+//@   ensures empty-path-is-an-error: path == "" ==> err != nil
+//
+//@ func processRawRef(rawRef) (err)
+//@   property C11
+//@   modifies heap, ghost.j_osStat
+//@   ensures stdio-and-devices-are-binpb: b2_isStdioOrDev(old(rawRef.Path)) ==> err == nil && rawRef.Format == "binpb" && rawRef.CompressionType == 0
+//@   ensures message-extension: !b2_isStdioOrDev(old(rawRef.Path)) && b2_fileExt(b2_ext(old(rawRef.Path))) != "" ==> err == nil && rawRef.Format == b2_fileExt(b2_ext(old(rawRef.Path))) && rawRef.CompressionType == 0
+//@   ensures zip: !b2_isStdioOrDev(old(rawRef.Path)) && b2_ext(old(rawRef.Path)) == ".zip" ==> err == nil && rawRef.Format == "zip" && rawRef.CompressionType == 0
+//@   ensures git: !b2_isStdioOrDev(old(rawRef.Path)) && b2_ext(old(rawRef.Path)) == ".git" ==> err == nil && rawRef.Format == "git" && rawRef.CompressionType == 0
+//@   ensures tgz: !b2_isStdioOrDev(old(rawRef.Path)) && b2_ext(old(rawRef.Path)) == ".tgz" ==> err == nil && rawRef.Format == "tar" && rawRef.CompressionType == internal.CompressionTypeGzip
+//@   ensures gz-over-inner-extension: !b2_isStdioOrDev(old(rawRef.Path)) && b2_ext(old(rawRef.Path)) == ".gz" && b2_fileExt(b2_innerExt(old(rawRef.Path))) != "" ==> err == nil && rawRef.Format == b2_fileExt(b2_innerExt(old(rawRef.Path))) && rawRef.CompressionType == internal.CompressionTypeGzip
+//@   ensures zst-over-inner-extension: !b2_isStdioOrDev(old(rawRef.Path)) && b2_ext(old(rawRef.Path)) == ".zst" && b2_fileExt(b2_innerExt(old(rawRef.Path))) != "" ==> err == nil && rawRef.Format == b2_fileExt(b2_innerExt(old(rawRef.Path))) && rawRef.CompressionType == internal.CompressionTypeZstd
+//@   ensures unknown-compressed-format-is-an-error: !b2_isStdioOrDev(old(rawRef.Path)) && (b2_ext(old(rawRef.Path)) == ".gz" || b2_ext(old(rawRef.Path)) == ".zst") && b2_fileExt(b2_innerExt(old(rawRef.Path))) == "" ==> err != nil
+//@   ensures compression-only-from-suffix: err == nil && b2_ext(old(rawRef.Path)) != ".gz" && b2_ext(old(rawRef.Path)) != ".zst" && b2_ext(old(rawRef.Path)) != ".tgz" ==> rawRef.CompressionType == 0
+//@   ensures proto-is-file-or-dir: !b2_isStdioOrDev(old(rawRef.Path)) && b2_ext(old(rawRef.Path)) == ".proto" ==> err == nil && (rawRef.Format == "protofile" || rawRef.Format == "dir") && rawRef.CompressionType == 0
+//@   ensures other-path-is-dir-or-module: err == nil && b2_ext(old(rawRef.Path)) != ".proto" && !b2_isStdioOrDev(old(rawRef.Path)) && b2_fileExt(b2_ext(old(rawRef.Path))) == "" && b2_ext(old(rawRef.Path)) != ".zip" && b2_ext(old(rawRef.Path)) != ".git" && b2_ext(old(rawRef.Path)) != ".tgz" && b2_ext(old(rawRef.Path)) != ".gz" && b2_ext(old(rawRef.Path)) != ".zst" ==> rawRef.Format == "dir" || rawRef.Format == "mod"
+//@   canary ensures err == nil
+//
+// ---- the message parser (buf build -o, buf convert --from/--to): same table without source packagings; everything
+// else, and stdio/devices (except /dev/stderr, rejected later), is the DEFAULT encoding's format ----
+//@ func newProcessRawRefMessage(defaultMessageEncoding) (r)
+//@   property C11
+//@   closure 0 ensures unknown-default-encoding-is-an-error: !(defaultMessageEncoding in messageEncodingToFormat) ==> err != nil
+//@   closure 0 ensures stdio-is-the-default-format: defaultMessageEncoding in messageEncodingToFormat && (old(rawRef.Path) == "-" || old(rawRef.Path) == "/dev/null" || old(rawRef.Path) == "/dev/stdin" || old(rawRef.Path) == "/dev/stdout") ==> err == nil && rawRef.Format == messageEncodingToFormat[defaultMessageEncoding] && rawRef.CompressionType == 0
+//@   closure 0 ensures message-extension: defaultMessageEncoding in messageEncodingToFormat && !(old(rawRef.Path) == "-" || old(rawRef.Path) == "/dev/null" || old(rawRef.Path) == "/dev/stdin" || old(rawRef.Path) == "/dev/stdout") && b2_msgExt(b2_ext(old(rawRef.Path))) != "" ==> err == nil && rawRef.Format == b2_msgExt(b2_ext(old(rawRef.Path))) && rawRef.CompressionType == 0
+//@   closure 0 ensures gz-over-inner-extension: defaultMessageEncoding in messageEncodingToFormat && !(old(rawRef.Path) == "-" || old(rawRef.Path) == "/dev/null" || old(rawRef.Path) == "/dev/stdin" || old(rawRef.Path) == "/dev/stdout") && b2_ext(old(rawRef.Path)) == ".gz" && b2_msgExt(b2_innerExt(old(rawRef.Path))) != "" ==> err == nil && rawRef.Format == b2_msgExt(b2_innerExt(old(rawRef.Path))) && rawRef.CompressionType == internal.CompressionTypeGzip
+//@   closure 0 ensures zst-over-inner-extension: defaultMessageEncoding in messageEncodingToFormat && !(old(rawRef.Path) == "-" || old(rawRef.Path) == "/dev/null" || old(rawRef.Path) == "/dev/stdin" || old(rawRef.Path) == "/dev/stdout") && b2_ext(old(rawRef.Path)) == ".zst" && b2_msgExt(b2_innerExt(old(rawRef.Path))) != "" ==> err == nil && rawRef.Format == b2_msgExt(b2_innerExt(old(rawRef.Path))) && rawRef.CompressionType == internal.CompressionTypeZstd
+//@   closure 0 ensures unknown-compressed-format-is-an-error: defaultMessageEncoding in messageEncodingToFormat && !(old(rawRef.Path) == "-" || old(rawRef.Path) == "/dev/null" || old(rawRef.Path) == "/dev/stdin" || old(rawRef.Path) == "/dev/stdout") && (b2_ext(old(rawRef.Path)) == ".gz" || b2_ext(old(rawRef.Path)) == ".zst") && b2_msgExt(b2_innerExt(old(rawRef.Path))) == "" ==> err != nil
+//@   closure 0 ensures other-extension-is-the-default-format: defaultMessageEncoding in messageEncodingToFormat && !(old(rawRef.Path) == "-" || old(rawRef.Path) == "/dev/null" || old(rawRef.Path) == "/dev/stdin" || old(rawRef.Path) == "/dev/stdout") && b2_msgExt(b2_ext(old(rawRef.Path))) == "" && b2_ext(old(rawRef.Path)) != ".gz" && b2_ext(old(rawRef.Path)) != ".zst" ==> err == nil && rawRef.Format == messageEncodingToFormat[defaultMessageEncoding] && rawRef.CompressionType == 0
+//@   closure 0 ensures compression-only-from-suffix: err == nil && b2_ext(old(rawRef.Path)) != ".gz" && b2_ext(old(rawRef.Path)) != ".zst" ==> rawRef.CompressionType == 0
+//
+// ---- the message ref: encoding = the encoding of the parsed format; reader and writer get the SAME parsed ref ----
+//@ func newMessageRef(singleRef, messageEncoding) (r, err)
+//@   property C11
+//@   modifies heap
+//@   ensures failure-has-no-ref: err != nil ==> r == nil
+//@   ensures kept: err == nil ==> r != nil && r.messageEncoding == messageEncoding && r.singleRef == singleRef
+//@ func (r *messageRef) MessageEncoding() (res)
+//@   property C11
+//@   ensures the-decided-encoding: res == r.messageEncoding
+//@ func (r *messageRef) internalSingleRef() (res)
+//@   property C11
+//@   ensures hands-over-the-parsed-ref: res == r.singleRef
+//
+// GetMessageRef: only message formats are allowed (table[b2_messageFormats]); the ref's encoding is the one of the
+// format the internal parser decided (b2_encOf: 1 binpb, 2 json, 3 txtpb, 4 yaml), never a default on failure.
+//@ func (a *refParser) GetMessageRef(ctx, value) (r, err)
+//@   property C11
+//@   modifies heap, ghost.fail, ghost.wfail
+//@   ensures failure-has-no-ref: err != nil ==> r == nil
+//@   ensures built: err == nil ==> r != nil && typeOf(r) == typeId(*messageRef)
+//@   ensures encoding-of-the-parsed-format: err == nil ==> b2_encOf(cast(internal.ParsedSingleRef, cast(*messageRef, r).singleRef).Format()) != 0 && (b2_encOf(cast(internal.ParsedSingleRef, cast(*messageRef, r).singleRef).Format()) == 1 <==> cast(*messageRef, r).messageEncoding == MessageEncodingBinpb) && (b2_encOf(cast(internal.ParsedSingleRef, cast(*messageRef, r).singleRef).Format()) == 2 <==> cast(*messageRef, r).messageEncoding == MessageEncodingJSON) && (b2_encOf(cast(internal.ParsedSingleRef, cast(*messageRef, r).singleRef).Format()) == 3 <==> cast(*messageRef, r).messageEncoding == MessageEncodingTxtpb) && (b2_encOf(cast(internal.ParsedSingleRef, cast(*messageRef, r).singleRef).Format()) == 4 <==> cast(*messageRef, r).messageEncoding == MessageEncodingYAML)
+//@   canary ensures err != nil
+//@   canary ensures err == nil
+//
+//@ func (w *writer) PutMessageFile(ctx, container, messageRef) (r, err)
+//@   property C11
+//@   modifies heap, ghost.fail, ghost.wfail, ghost.b2_putRef
+//@   ensures writes-to-the-parsed-ref: ghost.b2_putRef == messageRef.internalSingleRef()
+//@   ensures failure-reported: ghost.wfail == (old(ghost.wfail) || err != nil)
+//@ func (a *reader) GetMessageFile(ctx, container, messageRef) (r, err)
+//@   property C11
+//@   modifies heap, ghost.fail, ghost.b2_getRef
+//@   ensures reads-from-the-parsed-ref: ghost.b2_getRef == messageRef.internalSingleRef()
+//
+// ---- path -> (format, compression) for SOURCE inputs ("every source packaging of the same tree: directory, tar, zip"):
+// .tar -> tar, .zip -> zip (never compressed), .tgz -> tar+gzip, .tar.gz / .tar.zst -> tar + gzip / zstd (any other
+// inner extension under .gz/.zst is an error), .git -> git, .proto -> protofile (or a directory of that name),
+// anything else a directory (or, where modules are allowed, a module reference) ----
+//@ func processRawRefSource(rawRef) (err)
+//@   property C11
+//@   modifies heap, ghost.j_osStat
+//@   ensures tar: b2_ext(old(rawRef.Path)) == ".tar" ==> err == nil && rawRef.Format == "tar" && rawRef.CompressionType == 0
+//@   ensures zip: b2_ext(old(rawRef.Path)) == ".zip" ==> err == nil && rawRef.Format == "zip" && rawRef.CompressionType == 0
+//@   ensures tgz: b2_ext(old(rawRef.Path)) == ".tgz" ==> err == nil && rawRef.Format == "tar" && rawRef.CompressionType == internal.CompressionTypeGzip
+//@   ensures tar-gz: b2_ext(old(rawRef.Path)) == ".gz" && b2_innerExt(old(rawRef.Path)) == ".tar" ==> err == nil && rawRef.Format == "tar" && rawRef.CompressionType == internal.CompressionTypeGzip
+//@   ensures tar-zst: b2_ext(old(rawRef.Path)) == ".zst" && b2_innerExt(old(rawRef.Path)) == ".tar" ==> err == nil && rawRef.Format == "tar" && rawRef.CompressionType == internal.CompressionTypeZstd
+//@   ensures unknown-compressed-format-is-an-error: (b2_ext(old(rawRef.Path)) == ".gz" || b2_ext(old(rawRef.Path)) == ".zst") && b2_innerExt(old(rawRef.Path)) != ".tar" ==> err != nil
+//@   ensures git: b2_ext(old(rawRef.Path)) == ".git" ==> err == nil && rawRef.Format == "git" && rawRef.CompressionType == 0
+//@   ensures proto-is-file-or-dir: b2_ext(old(rawRef.Path)) == ".proto" ==> err == nil && (rawRef.Format == "protofile" || rawRef.Format == "dir") && rawRef.CompressionType == 0
+//@   ensures anything-else-is-a-directory: b2_ext(old(rawRef.Path)) != ".tar" && b2_ext(old(rawRef.Path)) != ".zip" && b2_ext(old(rawRef.Path)) != ".tgz" && b2_ext(old(rawRef.Path)) != ".gz" && b2_ext(old(rawRef.Path)) != ".zst" && b2_ext(old(rawRef.Path)) != ".git" && b2_ext(old(rawRef.Path)) != ".proto" ==> err == nil && rawRef.Format == "dir" && rawRef.CompressionType == 0
+//@   canary ensures err == nil
+//
+//@ func processRawRefSourceOrModule(rawRef) (err)
+//@   property C11
+//@   modifies heap, ghost.j_osStat
+//@   ensures tar: b2_ext(old(rawRef.Path)) == ".tar" ==> err == nil && rawRef.Format == "tar" && rawRef.CompressionType == 0
+//@   ensures zip: b2_ext(old(rawRef.Path)) == ".zip" ==> err == nil && rawRef.Format == "zip" && rawRef.CompressionType == 0
+//@   ensures tgz: b2_ext(old(rawRef.Path)) == ".tgz" ==> err == nil && rawRef.Format == "tar" && rawRef.CompressionType == internal.CompressionTypeGzip
+//@   ensures tar-gz: b2_ext(old(rawRef.Path)) == ".gz" && b2_innerExt(old(rawRef.Path)) == ".tar" ==> err == nil && rawRef.Format == "tar" && rawRef.CompressionType == internal.CompressionTypeGzip
+//@   ensures tar-zst: b2_ext(old(rawRef.Path)) == ".zst" && b2_innerExt(old(rawRef.Path)) == ".tar" ==> err == nil && rawRef.Format == "tar" && rawRef.CompressionType == internal.CompressionTypeZstd
+//@   ensures unknown-compressed-format-is-an-error: (b2_ext(old(rawRef.Path)) == ".gz" || b2_ext(old(rawRef.Path)) == ".zst") && b2_innerExt(old(rawRef.Path)) != ".tar" ==> err != nil
+//@   ensures git: b2_ext(old(rawRef.Path)) == ".git" ==> err == nil && rawRef.Format == "git" && rawRef.CompressionType == 0
+//@   ensures proto-is-a-file: b2_ext(old(rawRef.Path)) == ".proto" && err == nil ==> rawRef.Format == "protofile" && rawRef.CompressionType == 0
+//@   ensures anything-else-is-dir-or-module: err == nil && b2_ext(old(rawRef.Path)) != ".tar" && b2_ext(old(rawRef.Path)) != ".zip" && b2_ext(old(rawRef.Path)) != ".tgz" && b2_ext(old(rawRef.Path)) != ".gz" && b2_ext(old(rawRef.Path)) != ".zst" && b2_ext(old(rawRef.Path)) != ".git" && b2_ext(old(rawRef.Path)) != ".proto" ==> (rawRef.Format == "dir" || rawRef.Format == "mod") && rawRef.CompressionType == 0
+//@   canary ensures err == nil
